@@ -103,10 +103,15 @@ Theorem C20_scatter_data : forall V swap computed a (s : list (V * V)),
    forall i, nth_error (sample_scatter V swap s) i = option_map (pproj V swap) (nth_error s i)) /\
   (dc_scatter V computed DcNone = None /\ dc_scatter V computed DcTrue = Some computed /\
    dc_scatter V computed (DcArray a) = Some a) /\
-  collections V swap computed (DcArray a) (Some s) = [a; sample_scatter V swap s].
+  (collections V swap computed (DcArray a) (Some s) = [a; sample_scatter V swap s] /\
+   collections V swap computed DcTrue (Some s) = [computed; sample_scatter V swap s] /\
+   collections V swap computed DcNone (Some s) = [sample_scatter V swap s] /\
+   collections V swap computed (DcArray a) None = [a] /\
+   collections V swap computed DcTrue None = [computed] /\
+   collections V swap computed DcNone None = []).
 Proof.
   exact (fun V swap computed a s =>
-    conj (sample_scatter_spec V swap s) (conj (dc_scatter_spec V computed a) (proj1 (collections_spec V swap computed a s)))).
+    conj (sample_scatter_spec V swap s) (conj (dc_scatter_spec V computed a) (collections_spec V swap computed a s))).
 Qed.
 
 (* ---- the other plot functions: pdf curves, dependence-function curves, per-interval estimates.
@@ -126,6 +131,24 @@ Theorem C20_reader_partial : forall TS N (read_ts : text -> TS) (read_num : text
   read_dataset TS N read_ts read_num (render TS N show_ts show_num hdr rows) = (tl hdr, rows).
 Proof. exact read_render. Qed.
 
+(* ---- audit round *)
+
+(* write -> read round trip of the saved file: splitting the bytes at newlines and each line at ';' gives
+   back the header labels and, row by row in order, exactly the formatted coordinates.
+   partial: np.savetxt's line building is the model (contract) *)
+Theorem C20_file_roundtrip_partial : forall V (fmt : V -> text) names units n coords,
+  ~ In newline (header names units n) -> (forall v, ~ In newline (fmt v)) -> (forall v, ~ In semi (fmt v)) ->
+  Forall (fun row => row <> []) coords ->
+  parse_back (file_text (file_lines V fmt names units n coords)) =
+  split semi (header names units n) :: map (map fmt) coords.
+Proof. exact parse_back_file. Qed.
+
+(* the reader's tokenizer ignores any number of blanks after the delimiter: files written with ";",
+   "; " or ";   " as separator read the same.  partial: pandas' tokenizer is the model `fields` *)
+Theorem C20_reader_separators_partial : forall k fs, fs <> [] -> Forall clean fs ->
+  fields (join (semi :: repeat space k) fs) = fs.
+Proof. exact fields_render_k. Qed.
+
 (* non-vacuity: concrete paths, a concrete file, a concrete polyline, a concrete benchmark file
    (leaf parsers instantiated with the identity on text) *)
 Example C20_nonvacuous :
@@ -137,8 +160,12 @@ Example C20_nonvacuous :
   read_dataset text text (fun s => s) (fun s => s)
     [T "time (YYYY-MM-DD-HH); significant wave height (m); zero-up-crossing period (s)"; T "1996-01-01-00; 0.2845; 4.7252"; T "1996-01-01-01;  0.2774;4.6210"]
     = ([T "significant wave height (m)"; T "zero-up-crossing period (s)"],
-       [(T "1996-01-01-00", [T "0.2845"; T "4.7252"]); (T "1996-01-01-01", [T "0.2774"; T "4.6210"])]).
+       [(T "1996-01-01-00", [T "0.2845"; T "4.7252"]); (T "1996-01-01-01", [T "0.2774"; T "4.6210"])]) /\
+  parse_back (file_text (file_lines text (fun s => s) [T "Hs"; T "Tz"] [T "m"; T "s"] 2 [[T "1.000000"; T "2.500000"]; [T "3.000000"; T "4.000000"]]))
+    = [[T "Hs (m)"; T "Tz (s)"]; [T "1.000000"; T "2.500000"]; [T "3.000000"; T "4.000000"]] /\
+  fields (T "a;b;  c; d") = [T "a"; T "b"; T "c"; T "d"].
 Proof. repeat split; vm_compute; reflexivity. Qed.
+
 
 Print Assumptions C20_path_rule.
 Print Assumptions C20_extension_rule.
@@ -150,3 +177,5 @@ Print Assumptions C20_swap_axis.
 Print Assumptions C20_scatter_data.
 Print Assumptions C20_curves_partial.
 Print Assumptions C20_reader_partial.
+Print Assumptions C20_file_roundtrip_partial.
+Print Assumptions C20_reader_separators_partial.
